@@ -27,6 +27,7 @@ COMPONENTS = {
 
 def gen_case(tp, tier):
     feat = {'tempo_clocks': True, 'sends': True, 'bind': True, 'embed': True,
+            'cmsg': True,
             'busy': True,
             'inf_wait': True,
             'odd_deltas': tp.draw(3) == 0}
@@ -59,6 +60,8 @@ def gen_case(tp, tier):
             if st[0] == 'msg':
                 ctr[0] += 1
                 st[1] = ctr[0]
+                if len(st) > 2:
+                    renum(st[2][2])
             elif st[0] == 'bundle':
                 renum(st[2])
     for st in drv:
@@ -278,12 +281,42 @@ def check_rt(case, res, viol, stats):
                 'main-send-while-routine-runs', 0) + 1
         t = e['secs']
         dg = [bytes.fromhex(x) for x in e['dgrams']]
+        if e['kind'] == 'msg' and e.get('nested') is not None and \
+                expect_raise(e['nested'][1], e['nested'][2]) is not False:
+            er = expect_raise(e['nested'][1], e['nested'][2])
+            if er and (e['raised'] != 'ValueError' or dg):
+                viol.add('C07-3', f'{where}-subtime-not-refused',
+                         f'message with a completion bundle whose nested '
+                         f'bundle precedes it: raised {e["raised"]}, '
+                         f'{len(dg)} datagram(s) sent')
+            continue
         if e['kind'] == 'msg':
             if e['raised'] or len(dg) != 1:
                 viol.add('C07-1', f'{where}-msg-send',
                          f'send_msg raised {e["raised"]} / {len(dg)} dgrams')
                 continue
             pkt, err = osc.try_decode(dg[0])
+            if e.get('nested') is not None:
+                # the last argument is a bundle: it travels as a blob and is
+                # stamped like a bundle sent at that point of the routine
+                nst = e['nested']
+                lst = pkt.aslist() if isinstance(pkt, osc.Msg) else []
+                if err or lst[:3] != ['/m', rid, e['els'][0][1]] \
+                        or len(lst) != 4 or not isinstance(lst[3], bytes):
+                    viol.add('C07-3', f'{where}-msg-content',
+                             f'message on the wire: {pkt!r} {err}')
+                    continue
+                sub, err2 = osc.try_decode(lst[3])
+                if err2 or not isinstance(sub, osc.Bundle):
+                    viol.add('C07-3', f'{where}-completion-undecodable',
+                             f'{err2} {sub!r}')
+                elif inr and expect_raise(nst[1], nst[2]) is False:
+                    check_bundle_pkt(sub, t, nst[1], nst[2], rid, offset,
+                                     viol, where + '-completion', stats)
+                    stats['completion-bundles-checked'] = stats.get(
+                        'completion-bundles-checked', 0) + 1
+                sent.append(('m', rid, e['els'][0][1], None, e))
+                continue
             if err or not isinstance(pkt, osc.Msg) or \
                     pkt.aslist() != ['/m', rid, e['els'][0][1]]:
                 viol.add('C07-3', f'{where}-msg-content',
@@ -366,7 +399,8 @@ def check_rt(case, res, viol, stats):
             for r in rec:
                 hit = None
                 for i, (m, lat, e) in enumerate(pool):
-                    if m == r['msg']:
+                    if m == r['msg'] or (e.get('nested') is not None
+                                         and m == r['msg'][:3]):
                         hit = i
                         break
                 if hit is None:
@@ -450,10 +484,18 @@ def nrt_bundle(t, lat, els, rid):
 
 def encode_nrt(b):
     """Independent encoding of a score bundle [time, el...] (time absolute)."""
+    def rel(x, base):
+        # a bundle given as an argument of a message: times relative to the
+        # instant the message was sent
+        t = base if x[0] is None or x[0] < 0 else base + x[0]
+        return [t] + [rel(y, base) if not isinstance(y[0], str) else y
+                      for y in x[1:]]
     els = []
     for e in b[1:]:
         if isinstance(e[0], str):
-            els.append(osc.encode_message(e[0], e[1:]))
+            args = [encode_nrt(rel(a, b[0])) if isinstance(a, list) else a
+                    for a in e[1:]]
+            els.append(osc.encode_message(e[0], args))
         else:
             els.append(encode_nrt(e))
     return osc.encode_bundle(int(b[0] * 2.0 ** 32), els)
@@ -471,7 +513,24 @@ def check_nrt(case, res, viol, stats, cross_tie):
         inr = e['r'] != 'main'
         rid = e['r'] if inr else -1
         t = e['secs'] if inr else 0.0
-        if e['kind'] == 'msg':
+        if e['kind'] == 'msg' and e.get('nested') is not None:
+            nst = e['nested']
+            er = expect_raise(nst[1], nst[2])
+            if er is None or e['raised']:
+                if er is False:
+                    viol.add('C07-5', 'nrt-message-refused',
+                             f'NRT: message with a valid completion bundle '
+                             f'raised {e["raised"]}')
+                continue
+            if er:
+                viol.add('C07-5', 'nrt-subtime-not-refused',
+                         f'NRT: completion bundle whose nested bundle '
+                         f'precedes it was accepted')
+                continue
+            # the list keeps the bundle as it was given, the binary form
+            # stamps it from the send instant (see encode_nrt)
+            b = [t, ['/m', rid, e['els'][0][1], rprog.mk_el(nst, rid)]]
+        elif e['kind'] == 'msg':
             b = [t, ['/m', rid, e['els'][0][1]]]
         else:
             er = expect_raise(e['lat'], e['els'])
